@@ -643,6 +643,32 @@ def h_added_water(eng, ff):
             eng.check(bool(abs(d - d_hh) < 0.25), "water-angle-as-in-template", note=f"{r}: H-H {d:.2f} A (template {d_hh:.2f} A); water site {site}, opt={opt}")
 
 
+def table_template_bonds():
+    """table lemma (finite, enumerated - not symbolic): in every topology template the real Definition serves (AA.xml,
+    NA.xml and every patched variant built at load time: DA/DC/DG from the ribo templates, HID, ASH, terminal forms ...)
+    each declared bond joins two atoms that are at bonding distance in the template's own coordinates (X-H 0.85-1.45 A,
+    heavy-heavy 1.1-2.2 A).  The placement code superposes template coordinates and the bonded-geometry checks compare
+    with them, so a template that contradicts itself puts the added atom off its parent (round 6: a patch that took over
+    the bond list of a re-declared atom but not its coordinates)."""
+    from pdb2pqr import io, utilities
+
+    defn = io.get_definitions()
+    rows, violations = 0, []
+    for rn, r in sorted(defn.map.items()):
+        if rn.endswith("WAT") and rn != "WAT":
+            continue  # terminal patches applied to water: never instantiated
+        for an, a in r.map.items():
+            for b in a.bonds:
+                if b not in r.map:
+                    continue
+                rows += 1
+                d = float(utilities.distance([a.x, a.y, a.z], [r.map[b].x, r.map[b].y, r.map[b].z]))
+                lo, hi = (0.85, 1.45) if (an.startswith("H") or b.startswith("H")) else (1.1, 2.2)
+                if not lo <= d <= hi:
+                    violations.append({"label": "template-bond-is-a-bond", "values": {"template": rn, "atom": an, "bonded_to": b}, "reproduced": True, "replay_detail": f"template {rn}: {an} is declared bonded to {b} but sits {d:.3f} A from it in the template coordinates"})
+    return {"table_rows": rows, "distinct": rows, "violations": violations[:20], "samples": [{"rows": rows}]}
+
+
 def obligations(tier):
     obs = c04.obligations(tier, prop="C05")
     groups = [("ALA", "CB"), ("LYS", "NZ"), ("MET", "CE")] if tier == "quick" else [("ALA", "CB"), ("LYS", "NZ"), ("MET", "CE"), ("VAL", "CG1"), ("VAL", "CG2"), ("THR", "CG2"), ("LEU", "CD1"), ("ILE", "CG2"), ("ILE", "CD1")]
@@ -665,6 +691,7 @@ def obligations(tier):
             obs.append(Obligation(f"added-geometry-{position}-{ff}", h_added_geometry_terminal, dict(ff=ff, position=position), group="added-geometry", time_cap=1500))
     for r, ox in (("SER", "OG"), ("THR", "OG1"), ("TYR", "OH")):
         obs.append(Obligation(f"three-bond-free-position-{r}", h_three_bond_free_position, dict(resname=r, oxygen=ox), group="free-position", time_cap=600))
+    obs.append(Obligation("template-bonds-are-bonds", table_template_bonds, {}, kind="table", group="templates"))
     obs.append(Obligation("neutral-terminus-locality-parse", h_neutral_terminus_locality, dict(ff="parse"), group="added-geometry", time_cap=1500))
     for ff in ("parse",) if tier == "quick" else ("parse", "amber", "charmm"):
         obs.append(Obligation(f"added-water-{ff}", h_added_water, dict(ff=ff), group="added-geometry", time_cap=1500))
@@ -703,12 +730,12 @@ META = dict(
         "'within the distortion already present in the input' (a float tolerance statement); three-bond branch with a second hydrogen at a distorted position",
     ],
     assumptions=[],
-    technique="real code on z3 Real proxies, polynomial lemmas (two z3 builds) + finite bond-graph condition + symbolic paths for the gap pointers",
+    technique="real code on z3 Real proxies, polynomial lemmas (two z3 builds) + finite bond-graph condition + symbolic paths for the gap pointers and site selectors + one table lemma (template bonds, enumerated)",
 )
 
 MANIFEST = dict(
-    text="For C05: the real rebuild_tetrahedral/rotate_tetrahedral on symbolic coordinates (two- and three-bond branches): the added hydrogen has the parent distance and the angle to the parent-next bond of the hydrogen it is rotated from, sits at the free tetrahedral position (never on an existing hydrogen) and the existing atoms end where they started (exact: cos = -1/2, sin^2 = 3/4); every torsion change of the real set_dihedral_angle carries hydrogens with their parents (C04's symbolic classification applied to all bonds with a hydrogen, all coordinates and angles symbolic); the real update_bonds clears the peptide neighbour pointers on both sides of a chain break for every C-N distance, so the three reference atoms of a superposition are never taken across a gap. Water hydrogens through the real pipeline for a water in contact, isolated, or next to another water only (O-H and H-H against the template). Superposition algebra: C15. Round 4: every residue type as first / last residue of a chain (selector) with the same template-distance checks incl. the terminal amine hydrogens, no input heavy atom displaced by hydrogen building; a hydrogen finalised or placed by a donor attempt on an oxygen with two bonds sits at one of the two free tetrahedral positions (site harness of C14). Round 6: the tetrahedral completion also with the present hydrogens marked as input atoms (a partly protonated input). The real Optimize.get_position_with_three_bonds returns the one free tetrahedral site for either site of the second substituent and either bond-list order (the three sites tied by the exact 3-cycle of the 120-degree turns, site separation an arbitrary real > 0.1 A).",
+    text="For C05: the real rebuild_tetrahedral/rotate_tetrahedral on symbolic coordinates (two- and three-bond branches): the added hydrogen has the parent distance and the angle to the parent-next bond of the hydrogen it is rotated from, sits at the free tetrahedral position (never on an existing hydrogen) and the existing atoms end where they started (exact: cos = -1/2, sin^2 = 3/4); every torsion change of the real set_dihedral_angle carries hydrogens with their parents (C04's symbolic classification applied to all bonds with a hydrogen, all coordinates and angles symbolic); the real update_bonds clears the peptide neighbour pointers on both sides of a chain break for every C-N distance, so the three reference atoms of a superposition are never taken across a gap. Water hydrogens through the real pipeline for a water in contact, isolated, or next to another water only (O-H and H-H against the template). Superposition algebra: C15. Round 4: every residue type as first / last residue of a chain (selector) with the same template-distance checks incl. the terminal amine hydrogens, no input heavy atom displaced by hydrogen building; a hydrogen finalised or placed by a donor attempt on an oxygen with two bonds sits at one of the two free tetrahedral positions (site harness of C14). Round 6 (table lemma): every declared bond of every template the Definition serves joins atoms at bonding distance in the template's own coordinates. Round 6: the tetrahedral completion also with the present hydrogens marked as input atoms (a partly protonated input). The real Optimize.get_position_with_three_bonds returns the one free tetrahedral site for either site of the second substituent and either bond-list order (the three sites tied by the exact 3-cycle of the 120-degree turns, site separation an arbitrary real > 0.1 A).",
     note="Trusted: z3 (two builds), exact reals. Polar hydrogen / lone-pair placement during optimisation is outside. Known findings: N-terminal H2/H3, neutral C-terminal HO and methyl hydrogens on branch atoms are ranked by distance from CA and rotate with a bond they are not attached beyond (known_findings.json).",
-    technique="polynomial lemmas over terms from the real code (z3 QF_NRA, two builds) + finite graph condition + symbolic execution",
+    technique="polynomial lemmas over terms from the real code (z3 QF_NRA, two builds) + finite graph condition + symbolic execution (symx) + one enumerated table lemma (template bonds)",
     design="DESIGN.md section 3 C05",
 )
